@@ -1,1 +1,2 @@
 import Properties.C17
+import Properties.C13
